@@ -67,7 +67,11 @@ impl World {
         let n = c.n;
         let is_new = matches!(c.kind, CallKind::New);
 
+        *self.stats.entry("chk.C20.no_panic").or_insert(0) += 1;
         // ---------------- C06.term_monotone
+        if !is_new {
+            *self.stats.entry("chk.C06.term_monotone").or_insert(0) += 1;
+        }
         if !is_new && c.post.term < c.pre.term {
             let d = format!("node {n}: term went from {} to {} in {}", c.pre.term, c.post.term, kind_name(c.kind));
             let v = self.violation("C06", "C06.term_monotone", n, d, "term_decreased".into());
@@ -76,6 +80,7 @@ impl World {
 
         // ---------------- C02.one_leader_per_term
         if c.post.role == StateRole::Leader {
+            *self.stats.entry("chk.C02.one_leader_per_term").or_insert(0) += 1;
             match self.ghost.leader_of.get(&c.post.term) {
                 Some(l) if *l != n => {
                     let d = format!("nodes {} and {} are both leader of term {}", l, n, c.post.term);
@@ -199,6 +204,10 @@ impl World {
         }
         let same_leader = c.pre.role == StateRole::Leader && c.post.role == StateRole::Leader && c.pre.term == c.post.term;
         let restored = c.post.snap_index != 0 && c.post.snap_index != c.pre.snap_index;
+        *self.stats.entry("chk.C05.committed_prefix_immutable").or_insert(0) += 1;
+        if same_leader {
+            *self.stats.entry("chk.C05.leader_append_only").or_insert(0) += 1;
+        }
         // logical log before the call: stable model below old offset, old unstable above.
         // Storage is never touched inside a library call, so the stable model is the same before/after.
         let old_last = c.pre.last_index;
